@@ -82,6 +82,11 @@ class Lib:
     def compare(self, it, n, left, comps):
         return None
 
+    def specialisations(self, fi):
+        """optional list of {param: python constant | AV}: the function is
+        analysed once per entry (flags that switch units/behaviour)"""
+        return None
+
     def store_subscript(self, it, target, val, env, aug):
         return False
 
@@ -313,6 +318,11 @@ class Lib:
                 return AV(num="obj", elts=a0.elts, cls=cls)
             return container(el, cls=cls)
         if name == "map":
+            # map(np.array, xs) / map(float, xs) keep the elements' facets
+            if len(args) == 2 and len(n.args) == 2 and \
+                    norm(n.args[0]) in ("np.array", "numpy.array",
+                                        "np.asarray", "float", "list"):
+                return args[1]
             return container(TOP)
         if name in ("isinstance", "hasattr", "callable", "all", "any"):
             return BOOL
